@@ -348,3 +348,49 @@ func classifyParseHang(dump string) string {
 
 	return "unknown"
 }
+
+// Stacks asks the (live) child for a dump of all its goroutines.
+func (c *Child) Stacks() string {
+	c.nextID++
+	tag := c.nextID
+
+	if err := c.sendOp(&proto.Op{Op: "stacks", Tag: tag}); err != nil {
+		return "stacks: " + err.Error()
+	}
+
+	timer := time.NewTimer(5 * time.Second)
+	defer timer.Stop()
+
+	for {
+		select {
+		case data, ok := <-c.masterCh:
+			if !ok {
+				c.masterCh = nil
+				continue
+			}
+
+			c.Emu.Feed(data)
+		case ev, ok := <-c.evCh:
+			if !ok {
+				return "stacks: child gone"
+			}
+
+			if ev.Ev == "stacks" && ev.Tag == tag {
+				return ev.Dump
+			}
+		case <-timer.C:
+			return "stacks: timeout"
+		}
+	}
+}
+
+// LibraryStack extracts the goroutine that runs Readline from a dump.
+func LibraryStack(dump string) string {
+	for _, b := range strings.Split(dump, "\n\n") {
+		if strings.Contains(b, "readline.(*Shell).Readline") {
+			return b
+		}
+	}
+
+	return ""
+}
